@@ -331,6 +331,59 @@ impl<T: Elem, C: ArrayLength + PartialEq> Sys<T, C> {
                 return Err("iter().rev().enumerate().for_each() pairs indices with the wrong rows".into());
             }
         }
+        // multi-step use of ONE iterator: nth / nth_back / skip / step_by, in range and past the end
+        {
+            for n in [0usize, 1, rows.saturating_sub(1), rows, rows + 2] {
+                let mut it = m.iter();
+                let got = it.nth(n);
+                let want = self.model.get(n).map(|x| x.as_slice());
+                if got != want {
+                    return Err(format!("iter().nth({}) returned the wrong row (rows = {})", n, rows));
+                }
+                let rest: Vec<&[T]> = it.collect();
+                let want_rest: Vec<&[T]> = self.model.iter().skip(n + 1).map(|x| x.as_slice()).collect();
+                if rest != want_rest {
+                    return Err(format!("after iter().nth({}) the iterator yields {} more rows, expected {} (rows = {})", n, rest.len(), want_rest.len(), rows));
+                }
+                let mut it = m.iter();
+                let got = it.nth_back(n);
+                let want = if n < rows { Some(self.model[rows - 1 - n].as_slice()) } else { None };
+                if got != want {
+                    return Err(format!("iter().nth_back({}) returned the wrong row (rows = {})", n, rows));
+                }
+                let left = it.len();
+                if left != rows.saturating_sub(n + 1) {
+                    return Err(format!("after iter().nth_back({}) len() = {}, expected {} (rows = {})", n, left, rows.saturating_sub(n + 1), rows));
+                }
+                let mut sk = m.iter().skip(n);
+                let first = sk.next();
+                let second = sk.next();
+                if first != self.model.get(n).map(|x| x.as_slice()) || second != self.model.get(n + 1).map(|x| x.as_slice()) {
+                    return Err(format!("iter().skip({}) polled twice yields the wrong rows (rows = {})", n, rows));
+                }
+            }
+            let stepped: Vec<&[T]> = m.iter().step_by(2).collect();
+            let want: Vec<&[T]> = self.model.iter().step_by(2).map(|x| x.as_slice()).collect();
+            if stepped != want {
+                return Err("iter().step_by(2) does not visit rows 0, 2, 4, ...".into());
+            }
+            let mut cl2 = m.clone();
+            {
+                let mut it = cl2.iter_mut();
+                while let Some(r) = it.nth(2) {
+                    r[0] = T::from_u8(251);
+                }
+                for r in it {
+                    r[0] = T::from_u8(252);
+                }
+            }
+            for i in 0..rows {
+                let want = if i % 3 == 2 { T::from_u8(251) } else { self.model[i][0] };
+                if cl2[i][0] != want {
+                    return Err(format!("iter_mut(): while-let nth(2) then for-loop modified row {} wrongly (rows = {})", i, rows));
+                }
+            }
+        }
         // from_rows given the matrix's own iterators (ExactSizeIterator whose len() is the row count)
         {
             let a = DenseMatrix::<T, C>::from_rows(m.iter());
@@ -577,7 +630,7 @@ pub fn run(ctx: &mut Ctx, rep: &mut Report) {
         "histories",
         &format!(
             "explicit-state BFS over the real DenseMatrix<T,C> for T in {{u8,u32,f32,i64,Nucleotide (default value N is not the all-zero pattern)}} x C in {{1,5,7,16,21,32,43}}; \
-             {} operations (new/with_capacity/from_rows/uninitialized+write/resize/fill/IndexMut<usize>/IndexMut<MatrixCoordinates>/iter_mut/clone/clone_from/reserve); in every state also internal iteration (for_each/rfold/last, forwards and reversed, shared and mutable) and from_rows fed with the matrix's own iterators, \
+             {} operations (new/with_capacity/from_rows/uninitialized+write/resize/fill/IndexMut<usize>/IndexMut<MatrixCoordinates>/iter_mut/clone/clone_from/reserve); in every state also internal iteration (for_each/rfold/last, forwards and reversed, shared and mutable; nth/nth_back/skip/step_by in range and past the end followed by further use of the same iterator) and from_rows fed with the matrix's own iterators, \
              all histories to depth {} with canonical-state de-duplication (rows, capacity<=24, logical cells); \
              a state is non-trivial when distinct by that key; every transition re-executes its whole history on a fresh matrix and is checked against the Vec<Vec<T>> model",
             ops(ctx.quick()).len(),
